@@ -855,6 +855,28 @@ func (w *redisWorld) waitSites() []string {
 	return out
 }
 
+// readerBlockedWitness names one specific final state: the reader of a backend connection is parked while it queues a
+// redirected request (in Send, for the send lock or for room in a full queue) and the writer of a backend connection is
+// parked handing a written request to the full queue that only such a reader empties.  Nothing can move any more.
+func (w *redisWorld) readerBlockedWitness() string {
+	reader, writer := false, false
+	for _, t := range w.rt.Tasks() {
+		if t.State == simhook.StDead || t.Harness {
+			continue
+		}
+		if t.Role == "(*upstream).createClient#go1" && (strings.HasPrefix(t.Site, "(*client).Send#lock") || t.Site == "(*client).send#select2") {
+			reader = true
+		}
+		if t.Role == "(*client).Start#go1" && t.Site == "(*client).loopWrite#select2" {
+			writer = true
+		}
+	}
+	if reader && writer {
+		return "(backend reader parked in Send with the backend queues full) "
+	}
+	return ""
+}
+
 func (w *redisWorld) Final() *simrt.Violation {
 	// a backend that stays connected and silent forever is an ongoing fault, not a state after faults stopped:
 	// liveness is not judged then (the proxy has no request timeout; silence without connection loss is outside
@@ -875,8 +897,8 @@ func (w *redisWorld) Final() *simrt.Violation {
 		for _, s := range c.Sent {
 			if !s.Answered {
 				return &simrt.Violation{Clause: "reply-within-horizon",
-					Detail: fmt.Sprintf("client %s request #%d %v unanswered %v after the last fault; connection still open; replies=%d/%d; alive=%v",
-						c.Name, s.Idx, describeReq(c.Script[s.Idx]), w.horizon(), c.Replies, len(c.Sent), w.rt.Alive(false)),
+					Detail: fmt.Sprintf("client %s request #%d %v unanswered %v after the last fault; connection still open; replies=%d/%d; %salive=%v",
+						c.Name, s.Idx, describeReq(c.Script[s.Idx]), w.horizon(), c.Replies, len(c.Sent), w.readerBlockedWitness(), w.rt.Alive(false)),
 					Sites: w.waitSites()}
 			}
 		}
